@@ -177,6 +177,7 @@ func workerMain(args []string) int {
 	scheds := map[uint64]struct{}{}
 	states := map[uint64]struct{}{}
 	shrunk := map[core.Class]int{}
+	unlistedClasses := 0
 	rec := parseList(*record)
 	nt := p.NonTrivial
 	if nt == nil {
@@ -270,8 +271,11 @@ func workerMain(args []string) int {
 				}
 				continue
 			}
-			if shrunk[v.Class] >= *maxShrink || len(shrunk) >= int(envInt("VERIF_SHRINK_CLASSES", 40)) {
+			if shrunk[v.Class] >= *maxShrink || (shrunk[v.Class] == 0 && unlistedClasses >= int(envInt("VERIF_SHRINK_CLASSES", 40))) {
 				continue
+			}
+			if shrunk[v.Class] == 0 {
+				unlistedClasses++
 			}
 			shrunk[v.Class]++
 			runStarted.Store(0) // shrinking has its own budget
